@@ -598,3 +598,52 @@ Section Term2.
   Theorem clr_no_hang : exists f, parse f tbl w <> Hang.
   Proof. exact (no_hang_aux (S (length w)) 0 [0%Z] w [] (Nat.lt_succ_diag_r _) eq_refl). Qed.
 End Term2.
+
+(** ** "every non-terminal generates" cannot be dropped
+
+    S -> d C,  C -> A Y M,  Y -> a,  M -> M c,  A -> A | b   (a b c d = 0 1 2 3; M generates nothing).
+    The grammar is valid in the sense of CFG.Verify.  FIRST(M) is empty, so in the state reached by
+    "d A" the item [C -> A . Y M, $] contributes no closure item [Y -> . a, _] at all, and the unit
+    production A -> A is reduced on the lookahead a without any competing action: the modelled
+    canonical LR(1) and LALR(1) constructions return the same conflict-free table, and the driver
+    over it reduces A -> A forever on the input "d b a". *)
+Definition hang_G : gram := mkGrammar [0; 1; 2; 3] [10; 11; 12; 13; 14]
+  [mkProd 10 [Tm 3; Nt 11]; mkProd 11 [Nt 12; Nt 13; Nt 14]; mkProd 13 [Tm 0]; mkProd 14 [Nt 14; Tm 2];
+   mkProd 12 [Nt 12]; mkProd 12 [Tm 1]] 10.
+
+Definition hang_tbl : table := mkTable
+  [(0%Z, Some 3, Shift 1); (1%Z, Some 1, Shift 3); (2%Z, None, Accept);
+   (3%Z, Some 0, Reduce (mkProd 12 [Tm 1]));
+   (4%Z, None, Reduce (mkProd 10 [Tm 3; Nt 11]));
+   (5%Z, Some 0, Reduce (mkProd 12 [Nt 12]));
+   (7%Z, None, Reduce (mkProd 11 [Nt 12; Nt 13; Nt 14]));
+   (7%Z, Some 2, Shift 8);
+   (8%Z, None, Reduce (mkProd 14 [Nt 14; Tm 2]));
+   (8%Z, Some 2, Reduce (mkProd 14 [Nt 14; Tm 2]))]
+  [(0%Z, 10, 2%Z); (1%Z, 11, 4%Z); (1%Z, 12, 5%Z); (5%Z, 13, 6%Z); (6%Z, 14, 7%Z)].
+
+Lemma hang_G_valid : valid_grammar hang_G.
+Proof.
+  split; [split; [|split]|].
+  - intros p c Hp Hc. simpl in Hp. repeat (destruct Hp as [Hp|Hp]; [subst p; simpl in Hc; intuition (try discriminate); match goal with E : Tm _ = Tm _ |- _ => inversion E; subst; simpl; tauto end|]). destruct Hp.
+  - intros p A Hp Hc. simpl in Hp. repeat (destruct Hp as [Hp|Hp]; [subst p; simpl in Hc; intuition (try discriminate); match goal with E : Nt _ = Nt _ |- _ => inversion E; subst; simpl; tauto end|]). destruct Hp.
+  - simpl. tauto.
+  - intros A HA. simpl in HA.
+    destruct HA as [<-|[<-|[<-|[<-|[<-|[]]]]]].
+    + exists (mkProd 10 [Tm 3; Nt 11]). simpl. tauto.
+    + exists (mkProd 11 [Nt 12; Nt 13; Nt 14]). simpl. tauto.
+    + exists (mkProd 12 [Tm 1]). simpl. tauto.
+    + exists (mkProd 13 [Tm 0]). simpl. tauto.
+    + exists (mkProd 14 [Nt 14; Tm 2]). simpl. tauto.
+Qed.
+
+Lemma hang_G_built : build_clr 50 hang_G [] = BuiltOk hang_tbl /\ build_lalr 50 hang_G [] = BuiltOk hang_tbl.
+Proof. split; vm_compute; reflexivity. Qed.
+
+Lemma hang_loop f : forall out, run f hang_tbl [5%Z; 1%Z; 0%Z] [0] out = Hang.
+Proof. induction f as [|f IH]; intros out; [reflexivity|]. cbn. apply IH. Qed.
+
+Lemma hang_G_hangs f : parse f hang_tbl [3; 1; 0] = Hang.
+Proof.
+  destruct f as [|[|[|f]]]; try reflexivity. cbn. apply hang_loop.
+Qed.
